@@ -6,6 +6,7 @@ correspondence of harness/props/C11.py).  Helper lemmas: Proofs/Registers.lean.
 -/
 import SpsdkVerif.Model.Registers
 import SpsdkVerif.Proofs.Registers
+import SpsdkVerif.Proofs.RegistersCfg
 
 namespace SpsdkVerif.C11
 open SpsdkVerif SpsdkVerif.Regs SpsdkVerif.Misc
@@ -339,5 +340,366 @@ example : GroupWF { width := 64, subW := 32, subs := [1, 2] } := ⟨by decide, b
 
 example : (({ width := 64, subW := 32, subs := [0, 0], revSubs := true } : Reg).set 0x1111111122222222 true).toOption.map (·.subs)
     = some [0x11111111, 0x22222222] := by decide
+
+/-! # Extension: alternative widths, writes by enum name, the configuration path
+
+Model: the second half of Model/Registers.lean (`setAlt/getAlt`, `getConfig`, `loadConfig`), tied to
+`Register.get_alt_width/set_value/get_value`, `RegsBitField.get_enum_value/set_enum_value`,
+`_RegistersBase.get_config/_load_yml_config` by the `config_model` stream of harness/props/C11.py.
+Helper lemmas: Proofs/RegistersCfg.lean. -/
+
+/-! ## alternative widths -/
+
+/-- a register without alternative widths behaves exactly as before (all theorems above stay valid for it) -/
+theorem alt_widths_none (r : Reg) (v : Nat) (raw : Bool) :
+    r.setAlt [] v raw = r.set v raw ∧ r.getAlt [] raw = r.get raw :=
+  ⟨setAlt_nil r v raw, getAlt_nil r raw⟩
+
+/-- alternative widths as the database uses them: byte multiples, multiples of the sub-register width, not wider than
+    the group, and normal sub-register order -/
+structure AltOK (alts : List Nat) (r : Reg) : Prop where
+  mult : ∀ a ∈ alts, a % 8 = 0 ∧ 8 ≤ a ∧ a ≤ r.width ∧ a % r.subW = 0
+  order : r.revSubs = false ∨ alts = []
+
+/-
+Full-strength statement (`reg_set_get` for alt-width groups), FALSE on the current code:
+
+  theorem alt_width_set_get_full (r) (alts) (v) (raw) (h : GroupWF r) (ha : AltOK alts r) (hv : v < 2 ^ r.width) :
+      ∃ r', r.setAlt alts v raw = .ok r' ∧ r'.getAlt alts raw = .ok v
+
+It fails in two ways, both reproduced on the real code (known findings C11-alt-width-stale-sub-registers and
+C11-alt-width-reversed-trailing-zero-bytes), see the two refuting examples below.  The theorem that holds needs
+`hup` (the sub-registers beyond the alternative width are zero) and `hst` (a byte-reversed value does not end in enough
+zero bytes to fit a smaller alternative width).
+-/
+theorem alt_width_set_get_partial (r : Reg) (alts : List Nat) (v : Nat) (raw : Bool) (h : GroupWF r)
+    (ha : AltOK alts r) (hv : v < 2 ^ r.width)
+    (hup : ∀ i, altWidth alts r.width v / r.subW ≤ i → r.subs.getD i 0 = 0)
+    (hst : (!raw && r.reverse) = true →
+      ∀ a ∈ alts, a < altWidth alts r.width v → v % 2 ^ (altWidth alts r.width v - a) ≠ 0) :
+    ∃ r', r.setAlt alts v raw = .ok r' ∧ r'.getAlt alts raw = .ok v ∧ GroupWF r' := by
+  rcases ha.order with hn | hnil
+  · obtain ⟨l, h1, h2, h3, h4⟩ := setAlt_getAlt_group r alts v raw h.sub h.width h.bound h.bytes hn ha.mult hv hup hst
+    exact ⟨_, h1, h2, ⟨h.sub, by simp only [h3]; exact h.width, h4, h.bytes⟩⟩
+  · subst hnil
+    obtain ⟨r', h1, h2, h3⟩ := group_set_get r v raw h hv
+    exact ⟨r', by rw [setAlt_nil]; exact h1, by rw [getAlt_nil]; exact h2, h3⟩
+
+/-- a value below `2^alt` (one alternative width, as in every database configuration) round-trips through a group with
+    normal sub-register order, reversed byte order or not, processed or raw view, provided the sub-registers beyond the
+    alternative width hold zero -/
+theorem alt_width_set_get (r : Reg) (a v : Nat) (raw : Bool) (h : GroupWF r)
+    (ha : a % 8 = 0 ∧ 8 ≤ a ∧ a ≤ r.width ∧ a % r.subW = 0) (hn : r.revSubs = false) (hv : v < 2 ^ a)
+    (hup : ∀ i, a / r.subW ≤ i → r.subs.getD i 0 = 0) :
+    ∃ r', r.setAlt [a] v raw = .ok r' ∧ r'.getAlt [a] raw = .ok v ∧ GroupWF r' := by
+  have haw : altWidth [a] r.width v = a := by
+    rcases altWidth_cases [a] r.width v with ⟨_, hno⟩ | ⟨hm, _, _⟩
+    · exfalso
+      apply hno a (by simp)
+      rw [byteCnt_le_iff v _ (by omega), ← two_pow_eq_256_pow a ha.1]; exact hv
+    · simpa using hm
+  have hvw : v < 2 ^ r.width := Nat.lt_of_lt_of_le hv (Nat.pow_le_pow_right (by decide) ha.2.2.1)
+  apply alt_width_set_get_partial r [a] v raw h ⟨by intro b hb; simp at hb; subst hb; exact ha, Or.inl hn⟩ hvw
+  · rw [haw]; exact hup
+  · intro _ b hb hlt
+    simp at hb; subst hb
+    rw [haw] at hlt; omega
+
+/-- ROTKH / RKTH of the database: 12 sub-registers of 32 bits, alternative width 256, reversed -/
+def rotkh : Reg := { width := 384, reverse := true, subW := 32, subs := List.replicate 12 0 }
+
+example : GroupWF rotkh ∧ AltOK [256] rotkh :=
+  ⟨⟨by decide, by decide, by decide, by decide⟩, ⟨by decide, by decide⟩⟩
+
+section
+set_option exponentiation.threshold 400
+
+/-- REFUTATION 1 (`hst` is needed): the 384-bit value `2^383` has 16 trailing zero bytes; it is stored byte-swapped as
+    `0x80`, for which the alternative width is recomputed as 256, and reads back as `2^255`.
+    Replayed on the real code: `Register(width=384, reverse=True, alt_widths=[256])` + 12 sub-registers,
+    `set_value(2**383); get_value() == 2**255`. -/
+example : (rotkh.setAlt [256] (2 ^ 383) false).toOption.bind (fun r => (r.getAlt [256] false).toOption)
+    = some (2 ^ 255) := by decide
+
+/-- REFUTATION 2 (`hup` is needed): a full-width value followed by a short one; the upper four sub-registers keep the
+    old content.  Real code: `set_value(2**383 | 0x55, raw=True); set_value(5, raw=True); get_value(raw=True) == 2**383 | 5`. -/
+example : ((rotkh.setAlt [256] (2 ^ 383 + 0x55) true).toOption.bind (fun r => (r.setAlt [256] 5 true).toOption)).bind
+    (fun r => (r.getAlt [256] true).toOption) = some (2 ^ 383 + 5) := by decide
+
+/-- non-vacuity of `alt_width_set_get`: a SHA-256 sized value on the fresh ROTKH register -/
+example : (rotkh.setAlt [256] (2 ^ 255 + 1) false).toOption.bind (fun r => (r.getAlt [256] false).toOption)
+    = some (2 ^ 255 + 1) := by decide
+
+end
+
+/-! ## writes by enum name -/
+
+/-- what a configuration value means for a bit-field: the number the bit-field reads afterwards -/
+def cfgDecode (f : Field) (fm : FieldMeta) : CfgVal → Option Nat
+  | .enumName n => enumConst f fm n
+  | .num v => some v
+  | .rawNum v => some (v <<< f.shift)
+
+/-- `get_enum_value` always decodes back to the value the bit-field holds (this is what 85623b6 repaired: a name
+    shared by several values is only used for the value it decodes to) -/
+theorem enum_value_decodes (r : Reg) (f : Field) (fm : FieldMeta) (v : Nat) (h : fieldGet r f = .ok v) :
+    ∃ c, enumValueOf r f fm = .ok c ∧ cfgDecode f fm c = some v := by
+  rcases enumValueOf_cases r f fm v h with h1 | ⟨n, h1, h2⟩
+  · exact ⟨_, h1, rfl⟩
+  · exact ⟨_, h1, h2⟩
+
+/-- a bit-field written by enum name (configuration path) reads the value of that name, and the name read back from it
+    decodes to the same value -/
+theorem enum_write_reads_back (r : Reg) (f : Field) (fm : FieldMeta) (n v : Nat) (h : RegWF r)
+    (hin : f.offset + f.width ≤ r.width) (hn : enumConst f fm n = some v) (hv : v >>> f.shift < 2 ^ f.width) :
+    ∃ r', loadField r f fm (.enumName n) = .ok r' ∧ fieldGet r' f = .ok (stored f v) ∧ RegWF r' ∧
+      ∃ c, enumValueOf r' f fm = .ok c ∧ cfgDecode f fm c = some (stored f v) := by
+  obtain ⟨r', h1, h2⟩ := field_get_set r f v true h hin hv
+  have hl : loadField r f fm (.enumName n) = .ok r' := by simp [loadField, hn, h1]
+  exact ⟨r', hl, h2, fieldSet_wf r f v true h hin r' h1, enum_value_decodes r' f fm _ h2⟩
+
+/-- an enum constant that does not fit the bit-field is refused -/
+theorem enum_write_reject (r : Reg) (f : Field) (fm : FieldMeta) (n v : Nat) (hn : enumConst f fm n = some v)
+    (hv : 2 ^ f.width ≤ v >>> f.shift) : loadField r f fm (.enumName n) = .error .spsdk := by
+  simp [loadField, hn, field_reject r f v true hv]
+
+/-- **History theorem for writes by enum name** (`set_enum_value` outside the configuration path): after any history,
+    a write of enum entry `k` (value `v`) and any later ops that do not write the field's bits, the field reads `v`. -/
+theorem history_last_enum_write (rf : RegFile) (pre post : List Op) (i j k v : Nat)
+    (r : Reg) (f : Field) (h : FileWF rf) (hr : rf[i]? = some r) (hf : r.fields[j]? = some f)
+    (hk : f.enums[k]? = some v) (hv : v >>> f.shift < 2 ^ f.width) (hpost : ∀ op ∈ post, Untouched rf i j op) :
+    ∃ r', (run rf (pre ++ [Op.setEnum i j k] ++ post))[i]? = some r' ∧ fieldGet r' f = .ok (stored f v) := by
+  obtain ⟨_, hl1⟩ := run_wf rf pre h
+  obtain ⟨r1, hr1, hk1⟩ := getElem?_of_map_eq (key := fun r : Reg => (r.width, r.fields)) hl1 hr
+  have hf1 : r1.fields = r.fields := (Prod.mk.inj hk1).2
+  have hstep : step (run rf pre) (.setEnum i j k) = step (run rf pre) (.setField i j v false) := by
+    simp [step, updAt, hr1, hf1, hf, hk]
+  have e : run rf (pre ++ [Op.setEnum i j k] ++ post) = run rf (pre ++ [Op.setField i j v false] ++ post) := by
+    simp only [run, List.foldl_append, List.foldl_cons, List.foldl_nil]
+    have := hstep
+    simp only [run] at this
+    rw [this]
+  rw [e]
+  exact history_last_write rf pre post i j v false r f h hr hf hv hpost
+
+/-! ## configuration round trip: `load_yml_config(get_config())` -/
+
+/-- a register as `Registers._load_from_spec` builds it: a plain register, or a group without bit-fields whose
+    alternative widths (if any) are database-like -/
+inductive RegWF' (rm : RegMeta) (r : Reg) : Prop
+  | plain : RegWF r → RegWF' rm r
+  | group : GroupWF r → r.fields = [] → AltOK rm.alts r → RegWF' rm r
+
+def FileWF' (m : Meta) (rf : RegFile) : Prop := ∀ i r, rf[i]? = some r → RegWF' (m.reg i) r
+
+/-- same layout (everything but the stored values) -/
+structure SameLayout (r0 r : Reg) : Prop where
+  width : r0.width = r.width
+  reverse : r0.reverse = r.reverse
+  resetRaw : r0.resetRaw = r.resetRaw
+  fields : r0.fields = r.fields
+  subW : r0.subW = r.subW
+  subsLen : r0.subs.length = r.subs.length
+  revSubs : r0.revSubs = r.revSubs
+
+/-- what a group with alternative widths needs so that its configuration value loads back into `r0`
+    (both conditions are vacuous without alternative widths; they are exactly the two open findings) -/
+structure AltRT (alts : List Nat) (r r0 : Reg) : Prop where
+  upper : ∀ i, altWidth alts r.width (assemble r) / r.subW ≤ i → r0.subs.getD i 0 = 0
+  stable : r.reverse = true → ∀ a ∈ alts, a < altWidth alts r.width (assemble r) →
+    assemble r % 2 ^ (altWidth alts r.width (assemble r) - a) ≠ 0
+
+theorem altRT_nil (r r0 : Reg) (h : GroupWF r) (hl : r0.subs.length = r.subs.length) : AltRT [] r r0 := by
+  refine ⟨?_, ?_⟩
+  · intro i hi
+    rw [altWidth_nil, h.width, Nat.mul_div_cancel_left _ h.sub] at hi
+    rw [List.getD_eq_getElem?_getD, List.getElem?_eq_none (by omega)]; rfl
+  · intro _ a ha; cases ha
+
+/-- source register `r`, target register `r0` (e.g. of a fresh object) -/
+structure RegOK (rm : RegMeta) (r r0 : Reg) : Prop where
+  layout : SameLayout r0 r
+  wf : RegWF' rm r
+  wf0 : RegWF' rm r0
+  alt : r.subW ≠ 0 → AltRT rm.alts r r0
+
+/-- the effect of the round trip on one register: what the configuration carries is taken from `r`, the rest stays as it
+    is in `r0`.  NOT carried: bits of a register with bit-fields that no bit-field covers, and hidden bit-fields that
+    hold their reset value in `r`. -/
+inductive RegRT (rm : RegMeta) (r r0 : Reg) : Reg → Prop
+  | whole : r.fields = [] → r.subW = 0 → RegRT rm r r0 { r0 with value := r.value }
+  | group : r.subW ≠ 0 → RegRT rm r r0 { r0 with subs := r.subs }
+  | fields (x : Nat) : r.fields ≠ [] → r.subW = 0 → x < 2 ^ r.width →
+      (∀ k, (Carried rm r k → x.testBit k = r.value.testBit k) ∧
+            (¬ Carried rm r k → x.testBit k = r0.value.testBit k)) →
+      RegRT rm r r0 { r0 with value := x }
+
+theorem regOK_roundtrip (rm : RegMeta) (r r0 : Reg) (h : RegOK rm r r0) :
+    ∃ c r', regConfig r rm = .ok c ∧ loadReg r0 rm c = .ok r' ∧ RegRT rm r r0 r' := by
+  obtain ⟨hl, hw, hw0, halt⟩ := h
+  cases hw with
+  | plain hp =>
+    have hp0 : RegWF r0 := by
+      cases hw0 with
+      | plain h0 => exact h0
+      | group g0 _ _ => have := g0.sub; have := hl.subW; have := hp.plain; omega
+    by_cases he : r.fields = []
+    · obtain ⟨c, h1, h2⟩ := regcfg_rt_plain r r0 rm hp.plain hp.norev he hp.bound hp0.plain hp0.norev hl.width
+      exact ⟨c, _, h1, h2, .whole he hp.plain⟩
+    · obtain ⟨c, x, h1, h2, h3, h4⟩ := regcfg_rt_fields r r0 rm hp.plain hp.norev he hp.fieldsIn hp0.plain hp0.norev
+        hl.width hl.fields hp0.bound
+      exact ⟨c, _, h1, h2, .fields x he hp.plain h3 h4⟩
+  | group hg he ha =>
+    have hne : r.subW ≠ 0 := Nat.ne_of_gt hg.sub
+    obtain ⟨hup, hst⟩ := halt hne
+    obtain ⟨c, h1, h2⟩ := regcfg_rt_group' r r0 rm hg.sub hg.width hg.bound hg.bytes he ha.mult ha.order
+      hl.width hl.subW hl.revSubs hl.reverse hl.subsLen hup hst
+    exact ⟨c, _, h1, h2, .group hne⟩
+
+/-- **Configuration round trip.**  The configuration obtained from `rf` loads into any register file `rf0` of the same
+    layout (e.g. a freshly created object), and afterwards every register holds what the configuration carries from `rf`
+    (`RegRT`): the whole value of registers without bit-fields and of groups, and every bit of every written-out bit-field. -/
+theorem config_roundtrip (m : Meta) (rf rf0 : RegFile) (hlen : rf0.length = rf.length)
+    (hok : ∀ i r r0, rf[i]? = some r → rf0[i]? = some r0 → RegOK (m.reg i) r r0) :
+    ∃ cfg rf', getConfig m rf = .ok cfg ∧ loadConfig m rf0 cfg = .ok rf' ∧ rf'.length = rf.length ∧
+      ∀ i r r0, rf[i]? = some r → rf0[i]? = some r0 → ∃ r', rf'[i]? = some r' ∧ RegRT (m.reg i) r r0 r' := by
+  have := roundtrip_lift m RegOK RegRT regOK_roundtrip rf rf0 [] hlen (by simpa using hok)
+  simpa [getConfig] using this
+
+/-- every bit-field that the configuration carries reads, after the round trip, the value it has in the source -/
+theorem config_roundtrip_field (rm : RegMeta) (r r0 r' : Reg) (j : Nat) (f : Field) (hrt : RegRT rm r r0 r')
+    (hw0 : RegWF r0) (hw : RegWF r) (hf : r.fields[j]? = some f)
+    (hc : ¬ ((rm.field j).hidden = true ∧ fieldGet r f = .ok f.reset)) :
+    fieldGet r' f = fieldGet r f := by
+  cases hrt with
+  | whole he _ => rw [he] at hf; simp at hf
+  | group hne => exact absurd hw.plain hne
+  | fields x _ _ _ hbits =>
+    rw [fieldGet_plain_upd r0 f x hw0.plain hw0.norev, fieldGet_plain r f hw.plain hw.norev]
+    congr 2
+    apply slice_congr
+    intro k h1 h2
+    exact (hbits k).1 ((carried_iff rm r k).2 ⟨j, f, hf, h1, h2, hc⟩)
+
+/-- … and a hidden bit-field at its reset value in the source keeps the value it has in the target (in a fresh object: its
+    reset value, so it agrees as well) -/
+theorem config_roundtrip_hidden (rm : RegMeta) (r r0 r' : Reg) (f : Field) (hrt : RegRT rm r r0 r')
+    (hw0 : RegWF r0) (hne : r.fields ≠ [])
+    (hnc : ∀ k, f.offset ≤ k → k < f.offset + f.width → ¬ Carried rm r k) :
+    fieldGet r' f = fieldGet r0 f := by
+  cases hrt with
+  | whole he _ => exact absurd he hne
+  | group hne' =>
+    rw [fieldGet, fieldGet]
+    have e : ({ r0 with subs := r.subs } : Reg).get false = r0.get false := by
+      simp [Reg.get, isGroup_false _ hw0.plain, Reg.isGroup, hw0.plain]
+    rw [e]
+  | fields x _ _ _ hbits =>
+    rw [fieldGet_plain_upd r0 f x hw0.plain hw0.norev, fieldGet_plain r0 f hw0.plain hw0.norev]
+    congr 2
+    apply slice_congr
+    intro k h1 h2
+    exact (hbits k).2 (hnc k h1 h2)
+
+/-- if the target agrees with the source on every bit the configuration does not carry (e.g. all bits are covered by
+    bit-fields and the hidden ones at reset are at reset in the fresh object too), the round trip restores the register
+    completely: both views and every bit-field read as in the source -/
+theorem config_roundtrip_same_state (rm : RegMeta) (r r0 r' : Reg) (hrt : RegRT rm r r0 r') (hok : RegOK rm r r0)
+    (hrest : ∀ k, ¬ Carried rm r k → r0.value.testBit k = r.value.testBit k) :
+    (∀ raw, r'.getAlt rm.alts raw = r.getAlt rm.alts raw) ∧ ∀ f, fieldGet r' f = fieldGet r f := by
+  obtain ⟨hl, hw, hw0, _⟩ := hok
+  -- a plain target whose value becomes the source value reads like the source
+  have plainCase : r.subW = 0 → (∀ raw, ({ r0 with value := r.value } : Reg).getAlt rm.alts raw = r.getAlt rm.alts raw) ∧
+      ∀ f, fieldGet { r0 with value := r.value } f = fieldGet r f := by
+    intro hp
+    have hpw : RegWF r := by
+      cases hw with
+      | plain h => exact h
+      | group g _ _ => have := g.sub; omega
+    have hp0 : r0.subW = 0 := by rw [hl.subW]; exact hp
+    have hn0 : r0.reverse = false := by rw [hl.reverse]; exact hpw.norev
+    refine ⟨fun raw => ?_, fun f => ?_⟩
+    · rw [getAlt_plain { r0 with value := r.value } rm.alts raw hp0 hn0, getAlt_plain r rm.alts raw hp hpw.norev]
+    · rw [fieldGet_plain_upd r0 f r.value hp0 hn0, fieldGet_plain r f hp hpw.norev]
+  cases hrt with
+  | whole _ hp => exact plainCase hp
+  | group hne =>
+    have hc := fun raw => group_views_congr { r0 with subs := r.subs } r rm.alts raw hl.width hl.reverse hl.subW hne rfl hl.revSubs
+    refine ⟨fun raw => (hc raw).1, fun f => ?_⟩
+    simp only [fieldGet, (hc false).2]
+  | fields x _ hp hx hbits =>
+    have hpw : RegWF r := by
+      cases hw with
+      | plain h => exact h
+      | group g _ _ => have := g.sub; omega
+    have : x = r.value := by
+      apply Nat.eq_of_testBit_eq; intro k
+      by_cases hc : Carried rm r k
+      · exact (hbits k).1 hc
+      · rw [(hbits k).2 hc]; exact hrest k hc
+    subst this
+    exact plainCase hp
+
+/-! ## loading the same configuration twice -/
+
+theorem regInv_of_wf (rm : RegMeta) (r : Reg) (h : RegWF' rm r) : RegInv rm r := by
+  cases h with
+  | plain hp => exact .plain ⟨hp.plain, hp.norev, hp.bound, hp.fieldsIn, hp.disjoint⟩
+  | group hg he ha => exact .group ⟨hg.sub, hg.width, hg.bound, hg.bytes⟩ he ha.mult ha.order
+
+/-- **Idempotence of `load_yml_config`.**  `get_config` being free of side effects is trivial in a functional model
+    (`getConfig` returns no state); the statement with content is that loading any configuration a second time changes
+    nothing.  Hypotheses: the keys of the dictionaries are unique (`hk`: every register is addressed once, a group not
+    together with one of its own sub-registers; `EntryOK`: bit-field keys unique) and no byte-reversed register is given
+    as a bit-field dictionary (`EntryOK`; see the refuting example below). -/
+theorem loadConfig_idempotent (m : Meta) (rf rf1 : RegFile) (cfg : Cfg) (hwf : FileWF' m rf)
+    (hk : (cfg.map (·.1.idx)).Nodup) (he : ∀ e ∈ cfg, EntryOK rf e)
+    (hl : loadConfig m rf cfg = .ok rf1) : loadConfig m rf1 cfg = .ok rf1 :=
+  loadConfig_idem m rf rf1 cfg (fun i r hr => regInv_of_wf _ r (hwf i r hr)) hk he hl
+
+/-- why `EntryOK` excludes bit-field dictionaries for reversed registers: an EMPTY dictionary for a reversed group runs
+    the "processing" step `set_value(get_value(raw=True), raw=False)`, which byte-swaps the group on every load.
+    Replayed on the real code: reversed group of 3 bytes 0x11 0x22 0x33, `load_yml_config({"GRP": {}})` → 0x33 0x22 0x11. -/
+example : loadConfig [] [({ width := 16, reverse := true, subW := 8, subs := [0x11, 0x22] } : Reg)] [(.top 0, .fields [])]
+    = .ok [{ width := 16, reverse := true, subW := 8, subs := [0x22, 0x11] }] := by decide
+
+/-! ## non-vacuity of the configuration theorems -/
+
+/-- bit-field 0: enum values 2, 4, 4 named N0, N0, N1 (a name shared by two values); bit-field 1 hidden;
+    bit-field 2 with a SHIFT_RIGHT:4 processor -/
+def exCfgReg : Reg :=
+  { width := 16, value := 0x1234,
+    fields := [{ offset := 0, width := 4, enums := [2, 4, 4] }, { offset := 4, width := 4 },
+               { offset := 8, width := 8, shift := 4, enums := [0x120] }] }
+
+def exMeta : Meta := [{ fields := [{ names := [0, 0, 1] }, { hidden := true }, {}] }]
+
+example : RegWF exCfgReg := ⟨rfl, rfl, by decide, by decide, by decide⟩
+
+example : RegOK (exMeta.reg 0) exCfgReg { exCfgReg with value := 0 } :=
+  ⟨⟨rfl, rfl, rfl, rfl, rfl, rfl, rfl⟩, .plain ⟨rfl, rfl, by decide, by decide, by decide⟩,
+   .plain ⟨rfl, rfl, by decide, by decide, by decide⟩, fun h => absurd rfl h⟩
+
+/-- value 4 of bit-field 0 is first listed under the name N0, which decodes to 2: the number is written out (85623b6);
+    the hidden bit-field is not at its reset value 0 and is written out as well -/
+example : getConfig exMeta [exCfgReg] =
+    .ok [(.top 0, .fields [(0, .num 4), (1, .num 3), (2, .enumName 0)])] := by decide
+
+example : loadConfig exMeta [{ exCfgReg with value := 0 }] [(.top 0, .fields [(0, .num 4), (1, .num 3), (2, .enumName 0)])]
+    = .ok [exCfgReg] := by decide
+
+/-- by enum name: N0 is the first entry of that name (value 2); an unknown name is an error -/
+example : (loadConfig exMeta [exCfgReg] [(.top 0, .fields [(0, .enumName 0)])]).toOption.map (·.map (·.value))
+    = some [0x1232] := by decide
+
+example : loadConfig exMeta [exCfgReg] [(.top 0, .fields [(0, .enumName 7)])] = .error .spsdk := by decide
+
+example : EntryOK [exCfgReg] (.top 0, .fields [(0, .num 4), (1, .num 3), (2, .enumName 0)]) := by
+  refine ⟨?_, ?_⟩
+  · intro l hl; cases hl; decide
+  · intro i l r hi _ hr
+    cases hi
+    simp at hr
+    subst hr; rfl
 
 end SpsdkVerif.C11
